@@ -392,6 +392,80 @@ fn check(c: &Case, ctx: &Ctx) -> Outcome {
     }
 }
 
+// ---- wide tables: sample counts around 256 (narrow counters), short histories
+
+#[derive(Clone, Debug, Serialize, Deserialize)]
+pub struct WideCase {
+    pub n_sel: u16,
+    pub k_sel: u8,
+    pub anc: Vec<u8>,
+    /// (position selector, base, carrier pattern seed)
+    pub snps: Vec<(u16, u8, u16)>,
+    pub del: Vec<u16>,
+    pub flags: Flags,
+}
+
+fn wide_strategy() -> BoxedStrategy<WideCase> {
+    (any::<u16>(), 0u8..3, proptest::collection::vec(0u8..4, 30..60), proptest::collection::vec((any::<u16>(), 0u8..4, any::<u16>()), 1..5), proptest::collection::vec(any::<u16>(), 1..3), c06::flags_strategy())
+        .prop_map(|(n_sel, k_sel, anc, snps, del, flags)| WideCase { n_sel, k_sel, anc, snps, del, flags })
+        .boxed()
+}
+
+fn check_wide(c: &WideCase, ctx: &Ctx) -> Outcome {
+    let n = [255usize, 256, 257, 258, 300, 511, 513][gen::idx(c.n_sel, 7)];
+    let k = [7usize, 15, 33][c.k_sel as usize % 3];
+    let anc = gen::bases_to_seq(&c.anc);
+    let anc = if anc.len() < k + 3 { gen::filler(k, 3) } else { anc };
+    let samples: Vec<Sample> = (0..n)
+        .map(|j| {
+            let mut s = anc.clone();
+            for (ps, b, seed) in &c.snps {
+                if crate::engine::splitmix64(((*seed as u64) << 20) | j as u64) & 3 == 0 {
+                    let p = gen::idx(*ps, s.len());
+                    s[p] = model::BASES[*b as usize & 3];
+                }
+            }
+            (format!("w{j}"), vec![s])
+        })
+        .collect();
+    let dir = ctx.case_dir();
+    let r: Result<(), Outcome> = (|| {
+        must_ok(&build(ctx, &dir, "cur", &samples, k, true, 1), "ska build (wide)")?;
+        let (_d, mut t) = model_table(&samples, k, true);
+        let got = nk(ctx, &dir, "cur.skf")?;
+        model::compare_nk(&got, &t, k, true, Some(k_bits_for(k))).map_err(|m| Outcome::Fail(format!("after build: {m}")))?;
+        // delete one or two samples (recount)
+        let mut names: Vec<String> = c.del.iter().map(|d| t.names[gen::idx(*d, n)].clone()).collect();
+        names.dedup();
+        let mut args: Vec<&str> = vec!["delete", "-s", "cur.skf"];
+        args.extend(names.iter().map(|s| s.as_str()));
+        must_ok(&run_ska(ctx, &dir, &args), "ska delete (wide)")?;
+        t = t.delete(&names);
+        let got = nk(ctx, &dir, "cur.skf")?;
+        model::compare_nk(&got, &t, k, true, Some(k_bits_for(k))).map_err(|m| Outcome::Fail(format!("after deleting {names:?} from {n} samples: {m}")))?;
+        // frequency/site filter through align, compared with the model and with a fresh file
+        let nn = t.nsamples();
+        let res = if k <= 31 { save_table::<u64>(&t, k, true, &dir.join("fresh.skf"), false) } else { save_table::<u128>(&t, k, true, &dir.join("fresh.skf"), false) };
+        res.map_err(Outcome::Infra)?;
+        for file in ["cur.skf", "fresh.skf"] {
+            let mut a: Vec<String> = vec!["align".into()];
+            a.extend(c06::align_args(&c.flags, nn));
+            a.push(file.into());
+            let argv: Vec<&str> = a.iter().map(|s| s.as_str()).collect();
+            let o = run_ska(ctx, &dir, &argv);
+            must_ok(&o, &format!("ska {}", a.join(" ")))?;
+            c06::compare_align(&model::parse_fasta(&o.out_str()), &t, &c06::spec(&c.flags, nn)).map_err(|m| Outcome::Fail(format!("ska {} with {nn} samples: {m}", a.join(" "))))?;
+        }
+        Ok(())
+    })();
+    ctx.done(&dir);
+    match r {
+        Err(Outcome::Fail(m)) => Outcome::Fail(format!("wide table: n={n} k={k} ancestor={} snps={:?}: {m}", lossy(&anc), c.snps)),
+        Err(o) => o,
+        Ok(()) => pass(true, key_of(&(n, k, &anc, &c.snps, &c.del)), vec![if n >= 256 { ">=256_samples" } else { "255_samples" }]),
+    }
+}
+
 const RULE: &str = "stateful: start = ska build of 2-6 related samples (ambiguity from repeats; in 30% of the cases every sample twice under two names, so that every k-mer is in >= 2 samples); history of 1-7 ops from {merge with newly built samples (either argument order), delete subset (names on the command line or in a names file), weed by FASTA, reverse weed, weed-filter with generated filter/threshold/ambig-as-missing/ambig-mask/no-gap-only-sites}; after every op nk --full-info == table model; at the end a fresh file with the model's content is written through the public API and three generated commands (align, distance, delete, map aln/vcf, weed-filter, nk) must give identical results on both files, align/delete/weed-filter also equal to the model. weed thresholds only where n*f is an exact integer. Non-trivial: the history contains a merge, a delete or a filter with --filter-ambig-as-missing and does not end with an empty table; distinct by the trace.";
 
 fn show(c: &Case) -> serde_json::Value {
@@ -404,7 +478,10 @@ fn show(c: &Case) -> serde_json::Value {
 }
 
 fn stages(tier: Tier) -> Vec<Box<dyn Stage>> {
-    vec![gen_stage_show("history", RULE, tier.pick(1600, 20_000), 250, case_strategy, check, show)]
+    vec![
+        gen_stage_show("history", RULE, tier.pick(1600, 20_000), 250, case_strategy, check, show),
+        gen_stage_show("wide_tables", "generated: 255-513 samples (both sides of 256 and 512) of a 30-60 base genome with shared SNPs, k in {7,15,33}; build, delete one or two samples, then align with generated filters on the file with history and on a fresh file: nk and the alignment must equal the table model at every step. Every case non-trivial.", tier.pick(48, 600), 10, wide_strategy, check_wide, |c| json!({"sample_count_index": gen::idx(c.n_sel, 7), "k_index": c.k_sel % 3, "snps": c.snps.len()})),
+    ]
 }
 
 pub fn def() -> PropDef {
